@@ -31,7 +31,7 @@ TIMES = {"equal": lambda n: [float(i) for i in range(n)],
          "unequal": lambda n: [0.0, 1.0, 4.0, 4.5, 6.5][:n],
          "offset": lambda n: [5.0 + 0.25 * i for i in range(n)],
          "tiny": lambda n: [1e-3 * i for i in range(n)]}
-VMAPS = [["id"], ["rev"], ["gap", 3, 7], ["off", 10 ** 6], ["swap0"]]
+VMAPS = [["id"], ["rev"], ["gap", 3, 7], ["off", 10 ** 6], ["swap0"], ["stored_rev"]]
 
 
 def tension_vector(n, spec):
@@ -125,7 +125,7 @@ class Dynamics(ProductSystem):
             dz = {j: z * (times[t] - times[f]) for j, z in vj.items()}
             vm = cfg["vm%d" % t]
             vm = ["swap", 0, zero_j] if vm == ["swap0"] else vm
-            spec.append({"at": at, "k": cfg["k"], "cmap": cm, "post": SC.displace_post(at, dz), "time": times[t], "lab": {"vmap": vm}})
+            spec.append({"at": at, "k": cfg["k"], "cmap": cm, "post": SC.displace_post(at, dz), "time": times[t], "lab": SC.lab_for(vm)})
         s, infos, ex = SC.build_series(spec)
         if ex is not None:
             return {"viol": [{"what": "ForSys construction raised", "detail": fsutil.exc_str(ex)}], "tags": [], "cls": "exc"}
